@@ -509,6 +509,8 @@ class Evaluator:
         """Summarise function fi.  args: dict param -> value.  Missing params become symbolic, or -- with
         use_defaults=True -- take their declared default when they have one."""
         summary = Summary(fi)
+        if depth == 0:
+            self._rec_budget = 400
         fr = Frame(self, fi.module.name, fi, summary, depth)
         if closure_env:
             fr.env.update(closure_env)  # free variables of a nested function: what the enclosing function had bound
@@ -759,6 +761,10 @@ class Evaluator:
             n = len(t.elts)
             if isinstance(v, _Obj) and v.tuple_like:
                 v = tuple(v.fields.values())
+            elif isinstance(v, _Obj):
+                items = self.obj_iter(v, t, fr)
+                if items is not None:
+                    v = tuple(items)
             if isinstance(v, (tuple, list)) and len(v) == n:
                 for e, x in zip(t.elts, v):
                     self.assign(e, x, fr)
@@ -1007,6 +1013,14 @@ class Evaluator:
         body_inert = (len(fr.summary.calls), len(fr.summary.hazards)) == marks0 and not any(
             isinstance(n, (ast.Call, ast.BinOp, ast.Attribute, ast.Await, ast.Yield)) for b in st.body for n in ast.walk(b)) and len(fr.summary.exits) == n0
         fr.trystack.pop()
+        # implicit errors of the body (a failing lookup, an index past the end) that a handler of THIS statement names are
+        # caught here: they are no longer hazards of the function (the handler flow below stands for them)
+        hz = fr.summary.hazards
+        kept = [h_ for h_ in hz[marks0[1]:] if not any(_exc_matches(h_[0], ns) for _h, ns in handled)]
+        if len(kept) != len(hz) - marks0[1]:
+            del hz[marks0[1]:]
+            hz.extend(kept)
+            body_inert = False
         if not body_done and st.orelse:
             body_done = self.block(st.orelse, fr)
         # Explicit raise exits of the body that a handler catches are replaced, in place, by the exits of that handler
@@ -1189,6 +1203,10 @@ class Evaluator:
         if fused is not None:
             return self.block(fused, fr)
         it = self.expr(st.iter, fr)
+        if isinstance(it, _Obj) and not it.tuple_like:
+            items = self.obj_iter(it, st, fr)
+            if items is not None:
+                it = items
         if isinstance(it, _Iter):
             # consume the iterator one element at a time: a break leaves the rest for whoever uses the iterator next
             while it.pos < len(it.items):
@@ -1742,6 +1760,13 @@ class Evaluator:
 
     def e_UnaryOp(self, e, fr):
         v = self.expr(e.operand, fr)
+        if isinstance(v, _Obj):
+            if isinstance(e.op, (ast.USub, ast.UAdd, ast.Invert)):
+                r = self.dunder(v, {ast.USub: "neg", ast.UAdd: "pos", ast.Invert: "invert"}[type(e.op)], [], e, fr)
+                if r is not NotImplemented:
+                    return r
+            if isinstance(e.op, ast.Not):
+                return tm.lnot(self.obj_truth(v, e, fr))
         if isinstance(e.op, ast.Not):
             return tm.lnot(tm.truth(v))
         if isinstance(e.op, ast.USub):
@@ -1754,8 +1779,75 @@ class Evaluator:
             return T("invert", (v,), tm.INT)
         raise AnalysisError("unary op")
 
+    _BINOP_DUNDER = {ast.Add: "add", ast.Sub: "sub", ast.Mult: "mul", ast.Div: "truediv", ast.FloorDiv: "floordiv", ast.Mod: "mod", ast.Pow: "pow",
+                     ast.BitAnd: "and", ast.BitOr: "or", ast.BitXor: "xor", ast.LShift: "lshift", ast.RShift: "rshift", ast.MatMult: "matmul"}
+    _CMP_DUNDER = {ast.Lt: ("lt", "gt"), ast.LtE: ("le", "ge"), ast.Gt: ("gt", "lt"), ast.GtE: ("ge", "le"), ast.Eq: ("eq", "eq"), ast.NotEq: ("ne", "ne")}
+
+    def dunder(self, obj, name, args, e, fr):
+        """obj.__name__(*args) for an object of a package class that defines it (operator overloading, bytes(x), len(x), ...);
+        NotImplemented when the class has no such method."""
+        if not isinstance(obj, _Obj):
+            return NotImplemented
+        meths, _a = self.class_members(obj.modname, obj.cls)
+        fi = meths.get("__%s__" % name)
+        if fi is None:
+            return NotImplemented
+        return self.call_fn(fi, [obj] + list(args), {}, e, fr)
+
+    def obj_iter(self, obj, e, fr):
+        """The elements an object yields when iterated (its __iter__ evaluated; a generator method is its list of yields)."""
+        r = self.dunder(obj, "iter", [], e, fr)
+        if r is NotImplemented:
+            return None
+        if isinstance(r, _Obj) and not r.tuple_like:
+            # the iterator protocol: __next__ is called until it raises StopIteration -- unrolled while each call's outcome
+            # (an element, or StopIteration) is decided
+            meths, _a = self.class_members(r.modname, r.cls)
+            nx = meths.get("__next__")
+            if nx is None:
+                return None
+            items = []
+            for _ in range(MAX_UNROLL):
+                snap = clone(r.fields)
+                sub = self.run(nx, {nx.params()[0]: r}, depth=fr.depth + 1)
+                first = None
+                for ex in sub.exits:
+                    g = tm.land(list(ex.guard))
+                    if g is False:
+                        continue
+                    first = (ex, g)
+                    break
+                if first is None or first[1] is not True:
+                    r.fields = snap
+                    return None  # whether the iterator is exhausted is not decided here
+                ex = first[0]
+                if ex.kind == "raise":
+                    if (ex.exc or "").split(".")[-1] == "StopIteration":
+                        fr.summary.calls.extend(c for c in sub.calls)
+                        return items
+                    fr.summary.exits.append(Exit(tuple(fr.guard), "raise", ex.value, ex.node, ex.func, ex.exc, facts=tuple(fr.facts)))
+                    return items
+                fr.summary.calls.extend((c[0], c[1], c[2], c[3], tuple(fr.guard) + tuple(c[4]), tuple(fr.facts) + tuple(c[5] if len(c) > 5 else ()),
+                                         _merge_iters(fr.iters, c[6] if len(c) > 6 else {})) for c in sub.calls)
+                fr.summary.hazards.extend(sub.hazards)
+                items.append(ex.value)
+            return None
+        if isinstance(r, _Iter):
+            return list(r.items[r.pos:])
+        seq = _concrete_iter(r) if not isinstance(r, (str, bytes, dict)) else None
+        return list(seq) if seq is not None else None
+
     def e_BinOp(self, e, fr):
-        return self.binop(e.op, self.expr(e.left, fr), self.expr(e.right, fr), e)
+        a, b = self.expr(e.left, fr), self.expr(e.right, fr)
+        if isinstance(a, _Obj) or isinstance(b, _Obj):
+            nm = self._BINOP_DUNDER.get(type(e.op))
+            if nm:
+                r = self.dunder(a, nm, [b], e, fr)
+                if r is NotImplemented:
+                    r = self.dunder(b, "r" + nm, [a], e, fr)
+                if r is not NotImplemented:
+                    return r
+        return self.binop(e.op, a, b, e)
 
     def binop(self, op, a, b, node=None):
         ta, tb = tm.tyof(a), tm.tyof(b)
@@ -1802,9 +1894,37 @@ class Evaluator:
                     ast.In: "in", ast.NotIn: "notin", ast.Is: "is", ast.IsNot: "isnot"}[type(op)]
             if name in ("in", "notin") and isinstance(right, list):
                 right = tuple(right)
-            outs.append(tm.cmp(name, left, right))
+            done = False
+            if isinstance(left, _Obj) or isinstance(right, _Obj):
+                if type(op) in self._CMP_DUNDER:
+                    d1, d2 = self._CMP_DUNDER[type(op)]
+                    r = self.dunder(left, d1, [right], e, fr)
+                    if r is NotImplemented:
+                        r = self.dunder(right, d2, [left], e, fr)
+                    if r is NotImplemented and name == "ne":
+                        r = self.dunder(left, "eq", [right], e, fr)
+                        r = tm.lnot(tm.truth(r)) if r is not NotImplemented else r
+                    if r is not NotImplemented:
+                        outs.append(tm.truth(r))
+                        done = True
+                elif name in ("in", "notin") and isinstance(right, _Obj):
+                    r = self.dunder(right, "contains", [left], e, fr)
+                    if r is not NotImplemented:
+                        outs.append(tm.truth(r) if name == "in" else tm.lnot(tm.truth(r)))
+                        done = True
+            if not done:
+                outs.append(tm.cmp(name, left, right))
             left = right
         return tm.land(outs)
+
+    def obj_truth(self, v, e, fr):
+        r = self.dunder(v, "bool", [], e, fr)
+        if r is NotImplemented:
+            r = self.dunder(v, "len", [], e, fr)
+            if r is NotImplemented:
+                return True  # an object without __bool__ / __len__ is true
+            return tm.truth(r)
+        return tm.truth(r)
 
     def e_Slice(self, e, fr):
         return T("sliceobj", (self.expr(e.lower, fr) if e.lower is not None else None,
@@ -2208,7 +2328,13 @@ class Evaluator:
             if r is not NotImplemented:
                 return r
         opaque = q in self.policy.opaque or (self.policy.opaque_pred and self.policy.opaque_pred(q))
-        if bound is None or opaque or fr.depth >= self.policy.max_depth or self._stack.count(q) >= 4:
+        recursive = q in self._stack or fi.qualname in self._stack
+        if recursive and bound is not None and not opaque:
+            # a function calling itself (iteration written as recursion): inlined as long as the total budget lasts, whatever the
+            # nesting depth; recursion that never reaches a decided base case runs into the budget and stays opaque from there
+            self._rec_budget = getattr(self, "_rec_budget", 400) - 1
+        too_deep = (fr.depth >= self.policy.max_depth or self._stack.count(q) >= 4) if not recursive else (getattr(self, "_rec_budget", 400) <= 0 or self._stack.count(q) >= 80)
+        if bound is None or opaque or too_deep:
             rty = ann_type(fi.node.returns)
             if bound is not None:
                 names = [p for p in fi.params() if p in bound]
@@ -2224,7 +2350,7 @@ class Evaluator:
             r = tm.app(q, pos, tuple(sorted(kw.items())), ty=rty)
             self._opaque_log.append(r)
             return r
-        sub = self.run(fi, bound, depth=fr.depth + 1, closure_env=closure_env)
+        sub = self.run(fi, bound, depth=fr.depth if recursive else fr.depth + 1, closure_env=closure_env)
         fr.summary.loops.extend(sub.loops)
         fr.summary.hazards.extend((h[0], h[1], h[2], tuple(fr.guard) + tuple(h[3]), tuple(fr.facts) + tuple(h[4]), h[5],
                                    _merge_iters(fr.iters, h[6] if len(h) > 6 else {})) for h in sub.hazards)
@@ -2467,8 +2593,30 @@ class Evaluator:
 
     # ---- externs (builtins / stdlib), by name
     def extern(self, name, pos, kw, e, fr):
-        fr.summary.calls.append((name, pos, kw, e, tuple(fr.guard), tuple(fr.facts), dict(fr.iters)))
         n = name[9:] if name.startswith("builtins.") else name
+        if len(pos) == 1 and not kw and isinstance(pos[0], _Obj) and not pos[0].tuple_like:
+            # bytes(x), len(x), int(x), ... on an object of a package class: its special method
+            dn = {"bytes": "bytes", "len": "len", "int": "int", "str": "str", "repr": "repr", "hash": "hash", "abs": "abs", "float": "float", "index": "index"}.get(n)
+            if dn:
+                r = self.dunder(pos[0], dn, [], e, fr)
+                if r is NotImplemented and n == "int":
+                    r = self.dunder(pos[0], "index", [], e, fr)
+                if r is not NotImplemented:
+                    return r
+            if n == "bool":
+                return self.obj_truth(pos[0], e, fr)
+            if n in ("tuple", "list", "iter", "sorted", "reversed"):
+                items = self.obj_iter(pos[0], e, fr)
+                if items is not None:
+                    if n == "iter":
+                        return _Iter(items)
+                    if n == "reversed":
+                        return list(reversed(items))
+                    if n == "tuple":
+                        return tuple(items)
+                    if n == "list":
+                        return list(items)
+        fr.summary.calls.append((name, pos, kw, e, tuple(fr.guard), tuple(fr.facts), dict(fr.iters)))
         try:
             r = self._extern(n, pos, kw, e, fr)
         except (IndexError, KeyError, TypeError):
